@@ -61,10 +61,23 @@ func (mcl CommissionLimitDecorator) hasInvalidCommissionRange(msgs []sdk.Msg) er
 		switch msg := msg.(type) {
 		// Create Validator POA wrapper
 		case *poa.MsgCreateValidator:
-			return rateCheck(msg.Commission.Rate, mcl.RateFloor, mcl.RateCeil)
+			if msg.Commission.Rate.IsNil() {
+				return fmt.Errorf("commission rate is not set")
+			}
+
+			if err := rateCheck(msg.Commission.Rate, mcl.RateFloor, mcl.RateCeil); err != nil {
+				return err
+			}
 		// Editing the validator through staking (no POA edit)
 		case *stakingtypes.MsgEditValidator:
-			return rateCheck(*msg.CommissionRate, mcl.RateFloor, mcl.RateCeil)
+			// an edit that does not touch the commission rate has nothing to check
+			if msg.CommissionRate == nil {
+				continue
+			}
+
+			if err := rateCheck(*msg.CommissionRate, mcl.RateFloor, mcl.RateCeil); err != nil {
+				return err
+			}
 		}
 	}
 
